@@ -189,7 +189,9 @@ impl DiscriminantType {
                 let offset_lit = proc_macro2::Literal::u128_unsuffixed(offset);
 
                 arms.extend(match base {
-                    Some(exp) => quote::quote!( Self::#ident { .. } => ((#exp) as #self) + #offset_lit, ),
+                    // the expression is typed as the discriminant type itself, as it is in the enum
+                    // definition (`!0 / 2` is 127 for `u8`, but 0 if it is evaluated as `i32` and cast afterwards)
+                    Some(exp) => quote::quote!( Self::#ident { .. } => ({ let discriminant: #self = #exp; discriminant }) + #offset_lit, ),
                     None => quote::quote!( Self::#ident { .. } => #offset_lit as #self, ),
                 });
 
